@@ -27,7 +27,7 @@ def iom(name):
 LID = 'val(adb_info.local_id)'
 DI0 = 'old(G.di)[%s]' % LID
 IO_MOD = ['G.wire', 'G.nwrites', 'G.peer_rx', 'G.short', 'G.now', 'G.cpu']
-RD_MOD = ['G.rpos', 'G.now', 'G.cpu', 'G.di', 'self._io_manager._packet_store._dict']
+RD_MOD = ['G.rpos', 'G.now', 'G.cpu', 'G.di', 'G.sgot', 'self._io_manager._packet_store._dict']
 STREAM_OK = ['not isnone(adb_info.local_id) and not isnone(adb_info.remote_id)', 'G.rpos >= 0 and G.rpos <= len(G.dev)']
 NOLOCK = ('C06,C12', 'no-lock-held-on-entry', UNLOCKED)
 RELEASED = ('C06,C12', 'locks-released', UNLOCKED)
@@ -208,7 +208,10 @@ contract('AdbDevice._read_until',
          props=['C04', 'C01', 'C12', 'C08', 'C10'],
          requires=STREAM_OK + [NOLOCK],
          modifies=IO_MOD + RD_MOD,
-         ensures=[('C01,C04,C08', 'next-delivered-packet', 'result[0] == D_cmd({0}, {1}) and result[1] == D_data({0}, {1})'.format(LID, DI0)),
+         ghost_exit=[('G.sgot', 'store(G.sgot, {0}, G.sgot[{0}] + ite(result[0] == WRTE, len(result[1]), 0))'.format(LID))],
+         defines=['implies(result[0] == WRTE, result[1] == SB({0}, old(G.sgot)[{0}], old(G.sgot)[{0}] + len(result[1])))'.format(LID)],
+         ensures=[('C08,C09,C10', 'sync-bytes-received', 'G.sgot == store(old(G.sgot), {0}, old(G.sgot)[{0}] + ite(result[0] == WRTE, len(result[1]), 0))'.format(LID)),
+                  ('C01,C04,C08', 'next-delivered-packet', 'result[0] == D_cmd({0}, {1}) and result[1] == D_data({0}, {1})'.format(LID, DI0)),
                   ('C01,C04,C08', 'one-packet-consumed', 'G.di == store(old(G.di), {0}, {1} + 1)'.format(LID, DI0)),
                   ('C01,C04,C10', 'command-is-expected', 'result[0] in expected_cmds'),
                   ('C04', 'one-OKAY-per-delivered-WRTE-none-otherwise',
@@ -228,7 +231,7 @@ contract('AdbDevice._clse',
          raises=exc_all([RELEASED, MONO]))
 
 NEXTID = 'nextid(old(self._local_id))'
-OPEN_MOD = IO_MOD + RD_MOD + ['self._local_id']
+OPEN_MOD = IO_MOD + RD_MOD + ['self._local_id', 'G.spos']
 
 contract('AdbDevice._open',
          real=dev('_open'),
@@ -237,7 +240,9 @@ contract('AdbDevice._open',
          props=['C14', 'C04', 'C01', 'C11', 'C12'],
          requires=['self._local_id >= 0 and self._local_id < 2**32', 'G.rpos >= 0 and G.rpos <= len(G.dev)', NOLOCK],
          modifies=OPEN_MOD,
-         ensures=[('C14', 'next-id-with-wrap', 'self._local_id == %s' % NEXTID),
+         ghost_exit=[('G.spos', 'store(G.spos, self._local_id, G.sgot[self._local_id])')],
+         ensures=[('C08,C09', 'sync-reader-starts-with-nothing-buffered', 'G.spos == store(old(G.spos), self._local_id, G.sgot[self._local_id]) and G.sgot == old(G.sgot)'),
+                  ('C14', 'next-id-with-wrap', 'self._local_id == %s' % NEXTID),
                   ('C14', 'id-in-1..2^32-1', 'self._local_id >= 1 and self._local_id <= 2**32 - 1'),
                   ('C14,C04', 'stream-uses-that-id', 'same(result.local_id, self._local_id)'),
                   ('C04', 'OPEN-with-fresh-id-arg1-0-NUL-terminated', "G.wire == old(G.wire) + frame(OPEN, self._local_id, 0, destination + b'\\0')"),
